@@ -3,7 +3,7 @@
     M = ChunkModel.v (hchunks.c index arithmetic) and MCacheModel.v (mcache.c), both over gen/Gen_Chunk.v, which is
     regenerated from the C sources on every run. *)
 From Coq Require Import ZArith List Bool String Lia.
-Require Import H4.gen.Gen_Chunk H4.ChunkModel H4.MCacheModel H4.HChunkModel H4.ChunkProofs H4.MCacheProofs H4.HChunkProofs H4.ExtEltModel H4.ExtEltProofs H4.HAidModel H4.HAidProofs H4.ChunkTabModel H4.ChunkTabProofs.
+Require Import H4.gen.Gen_Chunk H4.ChunkModel H4.MCacheModel H4.HChunkModel H4.ChunkProofs H4.MCacheProofs H4.HChunkProofs H4.ExtEltModel H4.ExtEltProofs H4.HAidModel H4.HAidProofs H4.ChunkTabModel H4.ChunkTabProofs H4.FillModel H4.FillProofs.
 Import ListNotations.
 Local Open Scope Z_scope.
 
@@ -201,6 +201,24 @@ Theorem fill_page_is_fill_value : forall chunk_size nt (fe : list Z) off b,
 Proof. exact fill_page_repeats. Qed.
 Print Assumptions fill_page_is_fill_value.
 
+(** first_write_fill.  What the contiguous (and the compressed, laid-down-whole) layout does on the first write
+    into a new element and the chunked layout never needs: (1) a run of n fill bytes is written completely, in pieces of
+    1..MAX_SIZE bytes, by the piece loop of hdf_xdr_NCvdata (statement texts and their order pinned; the leading and
+    the trailing site use the same test "fill mode on, or compressed element" and the same loop); (2) in GRwriteimage
+    the fill in front of a strided selection, the selection's span and the fill behind it tile the image row. *)
+Theorem first_write_fill :
+  (forall fuel n, 1 <= n -> n <= Z.of_nat fuel * Z.min n MAX_SIZE ->
+     zsum (fill_run fuel n) = n /\ Forall (fun p => 1 <= p <= MAX_SIZE) (fill_run fuel n)) /\
+  (nth 2 hdf_xdr_NCvdata_q_stmts ""%string = nth 8 hdf_xdr_NCvdata_q_stmts ""%string /\
+   firstn 4 (skipn 4 hdf_xdr_NCvdata_q_stmts) = firstn 4 (skipn 10 hdf_xdr_NCvdata_q_stmts)) /\
+  (forall psize xdim sx cx tx, 0 <= psize -> 0 <= sx -> 1 <= cx -> 1 <= tx -> sx + (cx - 1) * tx < xdim ->
+     gr_fill_lo psize sx + gr_span psize cx tx + gr_fill_hi psize xdim sx cx tx = psize * xdim /\
+     0 <= gr_fill_lo psize sx /\ 0 <= gr_fill_hi psize xdim sx cx tx) /\
+  nth 2 GRwriteimage_q_stmts ""%string =
+    "fill_hi_size = (int32)pixel_disk_size * (ri_ptr->img_dim.xdim - (start[0] + ((count[0] - 1) * stride[0]) + 1))"%string.
+Proof. exact (conj fill_run_complete (conj fill_sites_agree (conj gr_row_tiles (proj2 (proj2 fill_statements))))). Qed.
+Print Assumptions first_write_fill.
+
 (** fill_lookup_uniform.  The chunked layout decides "this image has a user-defined fill value" exactly as the
     contiguous read and write paths do (regenerated condition texts): index-or-FAIL compared with FAIL. *)
 Theorem fill_lookup_uniform_across_layouts :
@@ -310,6 +328,11 @@ Proof.
   - vm_compute. split; [constructor; [right; reflexivity|constructor]|]. repeat split; reflexivity.
   - reflexivity.
 Qed.
+
+Example fill_run_of_2300000_bytes :
+  fill_run 3 2300000 = [1000000; 1000000; 300000] /\ 2300000 <= Z.of_nat 3 * Z.min 2300000 MAX_SIZE /\
+  gr_fill_lo 2 1 + gr_span 2 3 2 + gr_fill_hi 2 8 1 3 2 = 2 * 8.
+Proof. vm_compute. repeat split; try reflexivity; discriminate. Qed.
 
 Example stream_example :
   chunk_read_elem 1 [mk_dim 5 2; mk_dim 7 3]
